@@ -21,6 +21,8 @@ Oracle (property statement, nothing more)
 from __future__ import annotations
 
 import asyncio
+import errno
+import os
 import socket as _socket
 from typing import Any, Callable
 
@@ -167,8 +169,33 @@ def _h_stream(world: World) -> None:
     nevents = 0 if baseline else world.choose("nevents", 6)
     events = _draw_events(world, nevents, ("resume", "pause", "cancel", "rst", "aclose", "fin", "slow"), nsenders)
 
-    st: dict[str, Any] = {"issued": 0, "lost": False, "closing": False, "closer": None, "rst": False}
-    notes = {"capacity": capacity, "peer": peer_mode, "senders": [[(k, sz) for k, sz in s.ops] for s in senders], "events": events}
+    st: dict[str, Any] = {"issued": 0, "lost": False, "closing": False, "closer": None, "rst": False, "write_failed": False}
+    # fault "the socket write itself fails": from send call n on the OS refuses the bytes (ECONNRESET / EPIPE).  The loss is
+    # noticed BY the write (inside transport.write()/writelines() of some send, or by the flush of a suspended one) in the
+    # same loop step: asyncio marks the transport closing and only *schedules* connection_lost().
+    wfail: tuple[int, int] | None = None
+    if not baseline and world.chance("sw.write_fails", 1, 4):
+        wfail = (world.choose("wfail.n", 12), world.pick("wfail.errno", (errno.ECONNRESET, errno.EPIPE)))
+    send_calls = [0]
+
+    def write_fault(sock: SimSocket, op: str):
+        if op != "send" or wfail is None:
+            return None
+        k = send_calls[0]
+        send_calls[0] += 1
+        if k < wfail[0]:
+            return None
+        if not st["write_failed"]:
+            st["write_failed"] = st["lost"] = True
+            world.fault("errno_" + errno.errorcode[wfail[1]].lower())
+            world.log("write_fails", k, wfail[1])
+            if any(x.in_send for x in senders):
+                world.probe("write_fails_during_a_send")
+        cls = ConnectionResetError if wfail[1] == errno.ECONNRESET else BrokenPipeError
+        return cls(wfail[1], os.strerror(wfail[1]))
+
+    lib.fault_plan = write_fault
+    notes = {"capacity": capacity, "peer": peer_mode, "senders": [[(k, sz) for k, sz in s.ops] for s in senders], "events": events, "write_fails_from_call": wfail}
     world.notes.update({k: str(v) for k, v in notes.items()})
 
     def describe() -> str:
@@ -214,6 +241,16 @@ def _h_stream(world: World) -> None:
                 if pipe.total_written < end:
                     short = end - pipe.total_written
                     op = "write" if kind == "send_all" else "writelines"
+                    if st["write_failed"]:
+                        # the connection was lost (the OS refused a write) while this send was in progress and its bytes
+                        # were thrown away: it must fail with a connection error, not report success
+                        world.fail(
+                            Violation(
+                                "fail-on-connection-loss",
+                                f"sender {s.idx}: {kind}({n} bytes) returned normally although the socket write failed during the send and {short} of its bytes were discarded (the error only surfaces on a later send); {describe()}",
+                                key=f"C20/stream/returned-ok-after-write-error/{op}",
+                            )
+                        )
                     world.fail(
                         Violation(
                             "handed-to-os-on-return",
@@ -365,7 +402,28 @@ def _h_dgram(world: World, flavour: str) -> None:
     nevents = 0 if baseline else world.choose("nevents", 6)
     events = _draw_events(world, nevents, ("open", "room", "block", "cancel", "aclose"), nsenders)
     st: dict[str, Any] = {"closing": False, "closer": None, "sock": None}
-    notes = {"flavour": flavour, "room0": room0, "senders": [[sz[0] for _, sz in s.ops] for s in senders], "events": events}
+    # fault "sendto itself fails" (ECONNREFUSED / EPIPE / ECONNRESET for calls n .. n+k-1).  asyncio's datagram transport reports an
+    # OSError of sendto through protocol.error_received() and stays open: the connection is NOT lost, so the property only
+    # demands that nobody is stranded and that the other sends complete (nothing about the failed datagram itself).
+    dfail: tuple[int, int, int] | None = None
+    if not baseline and world.chance("sw.sendto_fails", 1, 4):
+        dfail = (world.choose("dfail.n", 8), 1 + world.choose("dfail.k", 3), world.pick("dfail.errno", (errno.ECONNREFUSED, errno.EPIPE, errno.ECONNRESET)))
+    sendto_calls = [0]
+
+    def sendto_fault(sock_: SimSocket, op: str):
+        if op != "sendto" or dfail is None:
+            return None
+        if sock_.dgram_send_room is not None and sock_.dgram_send_room <= 0:
+            return None  # the socket is full: this call blocks (EAGAIN) and does not count
+        k = sendto_calls[0]
+        sendto_calls[0] += 1
+        if dfail[0] <= k < dfail[0] + dfail[1]:
+            world.fault("errno_" + errno.errorcode[dfail[2]].lower())
+            world.log("sendto_fails", k, dfail[2])
+            cls = {errno.ECONNREFUSED: ConnectionRefusedError, errno.EPIPE: BrokenPipeError, errno.ECONNRESET: ConnectionResetError}[dfail[2]]
+            return cls(dfail[2], os.strerror(dfail[2]))
+        return None
+    notes = {"flavour": flavour, "room0": room0, "senders": [[sz[0] for _, sz in s.ops] for s in senders], "events": events, "sendto_fails": dfail}
     world.notes.update({k: str(v) for k, v in notes.items()})
 
     def describe() -> str:
@@ -421,6 +479,7 @@ def _h_dgram(world: World, flavour: str) -> None:
             sock = net.bound[("127.0.0.1", 5300)]
             send = lambda data: transport.send_to(data, remote)  # noqa: E731
         st["sock"] = sock
+        sock.fault_plan = sendto_fault
         sock.dgram_send_room = room0
         if room0 is not None:
             world.fault("capacity_small")
